@@ -123,6 +123,15 @@ partial def tyOf : Sexp → Option Ty
   | .list [.atom "type", t] => (tyOf t).map .typ
   | .list [.atom "sens", t] => (tyOf t).map .sensitive
   | .list [.atom "itr", t] => (tyOf t).map .iterator
+  | .list [.atom "rt", r, n, .atom "none"] => do
+      let r' ← r.str?
+      let n' ← n.str?
+      pure (.runtime r' n' none)
+  | .list [.atom "rt", r, n, .list [p]] => do
+      let r' ← r.str?
+      let n' ← n.str?
+      let p' ← p.str?
+      pure (.runtime r' n' (some p'))
   | .list [.atom "iter", t] => (tyOf t).map .iterable
   | .list [.atom "obj"] => some (.object none)
   | .list (.atom "obj" :: ns) => (ns.mapM Sexp.nat?).map fun p => .object (some p)
@@ -157,6 +166,8 @@ partial def tyStr : Ty → String
   | .typ t => s!"(type {tyStr t})"
   | .sensitive t => s!"(sens {tyStr t})"
   | .iterator t => s!"(itr {tyStr t})"
+  | .runtime r n none => s!"(rt {hexOfString r} {hexOfString n} none)"
+  | .runtime r n (some p) => s!"(rt {hexOfString r} {hexOfString n} ({hexOfString p}))"
   | .iterable t => s!"(iter {tyStr t})"
   | .object none => "(obj)"
   | .object (some p) => "(obj" ++ String.join (p.map fun n => s!" {n}") ++ ")"
